@@ -258,6 +258,9 @@ func (r restClientProtocol) prepareMarshalledResponse(op *operation, base []byte
 		contentField := desc.Fields().ByName("content_type")
 		contentType := msg.Get(contentField).String()
 		bytes := msg.Get(dataField).Bytes()
+		if !restValidContentType(contentType) {
+			return nil, fmt.Errorf("content type %q of the response is not a valid header value", contentType)
+		}
 		if contentType != "" {
 			headers.Set("Content-Type", contentType)
 		}
@@ -375,6 +378,9 @@ func (r restServerProtocol) prepareMarshalledRequest(op *operation, base []byte,
 		fields := msg.Descriptor().Fields()
 		contentType := msg.Get(fields.ByName("content_type")).String()
 		bytes := msg.Get(fields.ByName("data")).Bytes()
+		if !restValidContentType(contentType) {
+			return nil, malformedRequestError(fmt.Errorf("content type %q of the request is not a valid header value", contentType))
+		}
 		headers.Set("Content-Type", contentType)
 		// The data may still live in the buffer it was decoded from, which
 		// is released once this message is encoded: copy it.
@@ -473,6 +479,17 @@ func restEncodeTimeout(timeout time.Duration) string {
 		return "0"
 	}
 	return strconv.FormatFloat(timeout.Seconds(), 'f', -1, 64)
+}
+
+// restValidContentType reports whether the content type of a google.api.HttpBody,
+// which is message data, can be a header value (no control characters).
+func restValidContentType(contentType string) bool {
+	for i := 0; i < len(contentType); i++ {
+		if c := contentType[i]; (c < ' ' && c != '\t') || c == 0x7f {
+			return false
+		}
+	}
+	return true
 }
 
 func restHTTPBodyRequest(op *operation) bool {
